@@ -121,6 +121,7 @@ static struct {
 	unsigned long  gcCap;
 	unsigned long  auditEvery;	/* audit after every n-th forced gc */
 	int            auditBefore;	/* also audit before it */
+	unsigned long  auditAllocK, auditAllocJ, auditAllocCap;	/* audit at every K-th allocation (offset J), at most cap times */
 	int            traceAllocs;
 	/* clock, pid */
 	long           clockBase;
@@ -243,6 +244,7 @@ static void planLoad(void)
 		else if (!strcmp(w[0], "audit")) {
 			if (!strcmp(w[1], "every")) P.auditEvery = U(2);
 			else if (!strcmp(w[1], "before")) P.auditBefore = 1;
+			else if (!strcmp(w[1], "alloc")) { P.auditAllocK = U(2); P.auditAllocJ = U(3); P.auditAllocCap = nw > 4 ? U(4) : 2000; }
 		}
 		else if (!strcmp(w[0], "trace")) { if (!strcmp(w[1], "allocs")) P.traceAllocs = 1; }
 		else if (!strcmp(w[0], "clock")) {
@@ -338,7 +340,7 @@ static unsigned long nFaultFired;
 
 /* ---- collection schedule (allocation hook) ------------------------------ */
 static int inHook;
-static unsigned long lastSize;
+static unsigned long lastSize, nAllocAudit;
 
 static unsigned long mix64(unsigned long z)
 {
@@ -399,6 +401,10 @@ static void simAllocHook(unsigned code, unsigned long nbytes)
 		nForcedGc++;
 		if (aud) simAudit();
 		simLog("G %lu %lu %lu %d\n", ix, stoBytesGc - gc0, nSwept - sw0, aud);
+	}
+	if (P.auditAllocK && nAllocAudit < P.auditAllocCap && ix % P.auditAllocK == P.auditAllocJ % P.auditAllocK) {
+		nAllocAudit++;
+		simAudit();
 	}
 	inHook = 0;
 }
